@@ -116,7 +116,7 @@ def run(F, R, tier):
             stored = ws[0].args[1]
             if sym.term(stored) == ("ctor", "None"):
                 # clearing: only for an absent or empty value
-                r2.require(SR.variant(q, SR.param("value")) == "None" or q.val.get(("nonempty", VAL)) is False, (fn, "clear"), "%s clears the component for a non-empty value" % name)
+                r2.require(SR.variant(q, SR.param("value")) == "None" or _emptiness(q, VAL) is True, (fn, "clear"), "%s clears the component for a non-empty value" % name)
                 continue
             n_set += 1
             # the stored segment was validated with this component's character class …
@@ -128,7 +128,7 @@ def run(F, R, tier):
                 continue
             st = sym.term(seg_ok)
             r2.require(SR.derives(stored, st), (fn, "same-value"), "%s validates %s but stores %s" % (name, sym.fmt(st), sym.fmt(sym.term(stored))[:120]))
-            r2.require(q.val.get(("nonempty", st)) is True or q.val.get(("nonempty", VAL)) is True and st == VAL, (fn, "non-empty"), "%s stores an empty segment" % name)
+            r2.require(_emptiness(q, st) is False or _emptiness(q, VAL) is False and st == VAL, (fn, "non-empty"), "%s stores an empty segment" % name)
             if delim is None:
                 okd = any(a[0] == "truth" and c is True and a[1][:1] == ("call",) and a[1][1].endswith("starts_with") and a[1][2] == (VAL, ("lit", "/")) for (a, c, _, _) in q.decisions)
                 r2.require(okd, (fn, "leading-slash"), "set_path does not require a leading '/'")
@@ -500,6 +500,19 @@ def run(F, R, tier):
         r6.site("valid_method_id ≡ ( idchar | %%HH )* on all %d class-strings of length ≤ %d (%d paths): %s" % (len(words), LMAX, len(paths), bad == 0 and covered == len(words)))
     r6.floor(8)
 
+
+
+def _emptiness(q, t):
+    """True / False / None: did path q establish that the string term t is empty — as `nonempty(t)`, `t == ""` or `t.is_empty()`"""
+    v = q.val.get(("nonempty", t))
+    if v is not None:
+        return not v
+    for (a, c, _, _) in q.decisions:
+        if a[0] == "eq" and ((a[1] == ("lit", "") and a[2] == t) or (a[2] == ("lit", "") and a[1] == t)):
+            return bool(c)
+        if a[0] == "truth" and isinstance(a[1], tuple) and a[1][:1] == ("call",) and a[1][1].endswith("is_empty") and a[1][2] == (t,):
+            return bool(c)
+    return None
 
 
 def stream_worlds(rule, F, fn, lmax, spec, key_of, spec_text, with_pred):
